@@ -26,9 +26,14 @@ pub fn sim_config(scn: &Scenario, record_trace: bool) -> SimConfig {
     }
 }
 
-pub fn run_scenario(scn: &Scenario) -> RunOut {
+fn run_sim<F>(scn: &Scenario, f: F) -> RunOut
+where
+    F: FnOnce(&mut store::Ctx, &Scenario) + Send + 'static,
+{
     let n = RUN_COUNTER.fetch_add(1, std::sync::atomic::Ordering::Relaxed);
     let root = format!("{}/r{}", base_dir(), n);
+    // a dead process with the same pid may have left files behind
+    let _ = std::fs::remove_dir_all(&root);
     std::fs::create_dir_all(&root).expect("create run dir");
     let cfg = sim_config(scn, false);
     let scn2 = scn.clone();
@@ -44,15 +49,122 @@ pub fn run_scenario(scn: &Scenario) -> RunOut {
             };
         });
         let mut ctx = store::Ctx::new(&scn2.check, &root2);
-        match &scn2.body {
-            Body::Store(s) => match scn2.check.as_str() {
-                "C01" | "C02" | "C05" | "C12" | "C13" | "C14" | "C19" => store::run_seq(&mut ctx, s),
-                other => panic!("no engine for {}", other),
-            },
-            Body::Net(_) => panic!("net engine not built yet"),
-        }
+        f(&mut ctx, &scn2);
         ctx.finish()
     });
     let _ = std::fs::remove_dir_all(&root);
     out
+}
+
+fn store_of(scn: &Scenario) -> &StoreScn {
+    match &scn.body {
+        Body::Store(s) => s,
+        _ => panic!("store scenario expected"),
+    }
+}
+
+fn merge_out(into: &mut RunOut, from: RunOut) {
+    into.evaluations += from.evaluations;
+    into.nontrivial |= from.nontrivial;
+    into.sigs.extend(from.sigs);
+    for (k, v) in from.probes {
+        *into.probes.entry(k).or_insert(0) += v;
+    }
+    for (k, v) in from.faults {
+        *into.faults.entry(k).or_insert(0) += v;
+    }
+    into.sim_ns += from.sim_ns;
+    into.steps += from.steps;
+    into.switches += from.switches;
+    into.trace_hash = simrt::rng::mix(into.trace_hash, from.trace_hash);
+    into.obs_hash = simrt::rng::mix(into.obs_hash, from.obs_hash);
+    into.violations.extend(from.violations);
+}
+
+/// C20 without a pinned fault: enumerate (or sample) every faultable call of the workload.
+fn run_fault_enumeration(scn: &Scenario) -> RunOut {
+    use simrt::fsim::IoOp;
+    let calls = std::sync::Arc::new(std::sync::Mutex::new(Vec::new()));
+    let c2 = calls.clone();
+    let mut total = run_sim(scn, move |ctx, scn| {
+        let v = store::count_faultable(ctx, store_of(scn));
+        *c2.lock().unwrap() = v;
+    });
+    total.evaluations = 0;
+    if !total.violations.is_empty() {
+        return total;
+    }
+    let calls: Vec<store::FaultableCall> = calls.lock().unwrap().clone();
+    let s = store_of(scn);
+    let mut rng = simrt::rng::Rng::stream(scn.seed, "fault-positions");
+    let mut positions: Vec<usize> = (0..calls.len()).collect();
+    let cap = s.max_crash_points as usize;
+    if cap > 0 && positions.len() > cap {
+        // always keep the first and last call of every operation
+        let mut keep = std::collections::BTreeSet::new();
+        for (i, c) in calls.iter().enumerate() {
+            if i == 0 || calls[i - 1].tag != c.tag {
+                keep.insert(i);
+            }
+            if i + 1 == calls.len() || calls[i + 1].tag != c.tag {
+                keep.insert(i);
+            }
+        }
+        let mut must: Vec<usize> = keep.iter().cloned().collect();
+        let mut rest: Vec<usize> = positions.iter().cloned().filter(|p| !keep.contains(p)).collect();
+        while must.len() > cap {
+            let i = rng.usize_below(must.len());
+            must.swap_remove(i);
+        }
+        while must.len() + rest.len() > cap && !rest.is_empty() {
+            let i = rng.usize_below(rest.len());
+            rest.swap_remove(i);
+        }
+        must.extend(rest);
+        must.sort_unstable();
+        positions = must;
+    }
+    for p in positions {
+        let c = &calls[p];
+        let (errno, mode) = match c.op {
+            IoOp::Write => (*rng.pick(&[libc::ENOSPC, libc::EIO, libc::EDQUOT]), rng.below(2) as u8),
+            IoOp::Create | IoOp::OpenWriteExisting => (*rng.pick(&[libc::ENOSPC, libc::EIO, libc::EDQUOT, libc::EMFILE]), 0),
+            IoOp::Fsync => (libc::EIO, 0),
+            IoOp::Unlink => (*rng.pick(&[libc::EIO, libc::EACCES]), 0),
+            IoOp::Mmap => (libc::ENOMEM, 0),
+            _ => (*rng.pick(&[libc::EMFILE, libc::EIO]), 0),
+        };
+        let mut one = scn.clone();
+        if let Body::Store(st) = &mut one.body {
+            st.fault = Some((c.index, errno, mode));
+        }
+        let out = run_sim(&one, |ctx, scn| store::run_fault_one(ctx, store_of(scn)));
+        let bad = !out.violations.is_empty();
+        merge_out(&mut total, out);
+        if bad {
+            total.pinned = Some(Box::new(one));
+            break;
+        }
+    }
+    total.evaluations = total.evaluations.max(1);
+    total
+}
+
+pub fn run_scenario(scn: &Scenario) -> RunOut {
+    match &scn.body {
+        Body::Store(s) => match scn.check.as_str() {
+            "C01" | "C02" | "C05" | "C12" | "C13" | "C14" | "C19" => run_sim(scn, |ctx, scn| store::run_seq(ctx, store_of(scn))),
+            "C03" => run_sim(scn, |ctx, scn| store::run_crash(ctx, store_of(scn), false)),
+            "C09" => run_sim(scn, |ctx, scn| store::run_crash(ctx, store_of(scn), true)),
+            "C20" => {
+                if s.fault.is_some() {
+                    run_sim(scn, |ctx, scn| store::run_fault_one(ctx, store_of(scn)))
+                } else {
+                    run_fault_enumeration(scn)
+                }
+            }
+            other => panic!("no engine for {}", other),
+        },
+        Body::Net(_) => panic!("net engine not built yet"),
+    }
 }
